@@ -29,7 +29,7 @@ ASSUMPTIONS = [
     "ACL patterns never split the rows of one rulebook (rule,key): they are the rulebook's patterns, widened (*, truncation + ~) or narrowed to one key",
     "rulebook logics emit only the row or its negation (default, undo_redo, ordered)",
 ]
-FLOORS = {"quick": {"patches_checked": 2000, "commands_checked": 3000, "uncovered_rows_checked": 3000, "cant_delete_rows_checked": 150, "composition_checked": 2000, "front_runs_with_acl": 300, "front_runs_empty_acl": 10, "front_runs_acl_safe": 150},
+FLOORS = {"quick": {"patches_checked": 2000, "commands_checked": 3000, "uncovered_rows_checked": 3000, "cant_delete_rows_checked": 150, "composition_checked": 2000, "front_runs_with_acl": 300, "front_runs_empty_acl": 10, "front_runs_acl_safe": 150, "flat_vendor_cases": 400},
           "thorough": {"patches_checked": 60000, "commands_checked": 90000, "uncovered_rows_checked": 90000, "cant_delete_rows_checked": 4000, "composition_checked": 60000}}
 VENDORS = c01.BLOCK_VENDORS
 
@@ -39,11 +39,14 @@ def plan(tier, seed):
     return [{"mode": "random", "tier": tier, "seed": seed, "shard": k, "nshards": n} for k in range(n)]
 
 
-def make_case(seed):
+def make_case(seed, flat=False):
     rng = random.Random(seed)
-    vname = VENDORS[rng.randrange(len(VENDORS))]
+    if flat:
+        vname = sorted(c01.FLAT_VENDORS)[rng.randrange(len(c01.FLAT_VENDORS))]
+    else:
+        vname = VENDORS[rng.randrange(len(VENDORS))]
     v, prefix, exitw, hw, fmt = c01.vendor_env(vname)
-    U = G.gen_rulebook(rng, depth=3, prefix=prefix, allow=("catchall", "ordered", "logic_undo_redo", "global"))
+    U = G.gen_rulebook(rng, depth=3, prefix=prefix, allow=(("ordered", "global", "flat") if flat else ("catchall", "ordered", "logic_undo_redo", "global")))
     for r in _walk(U):
         if r.logic is None and not r.children and not r.ordered and rng.random() < 0.15:
             r.logic = "common.undo_redo"
@@ -142,17 +145,19 @@ def check_untouched(snap, alive, al, ag, prefix, acc, w, U=None):
                                   dict(w, row=list(path)))
 
 
-def check_case(seed, acc):
+def check_case(seed, acc, flat=False):
     from annet.api import _diff_and_patch
     from annet.annlib.rbparser.acl import compile_acl_text
     from annet.annlib.patching import apply_acl
-    vname, U, old, acl, mutated = make_case(seed)
+    vname, U, old, acl, mutated = make_case(seed, flat)
     v, prefix, exitw, hw, fmt = c01.vendor_env(vname)
     exits = {exitw} | c01.EXIT_EXTRA
     rtext, atext = RB.render(U), A.render(acl)
     if not atext.strip():
         return None
-    w = {"seed": seed, "vendor": vname, "rulebook": rtext, "acl": atext, "old": plain(old)}
+    w = {"seed": seed, "flat": flat, "vendor": vname, "rulebook": rtext, "acl": atext, "old": plain(old)}
+    if flat:
+        acc.count("flat_vendor_cases")
     try:
         rb = c01.compile_rb(rtext, vname)
         cacl = compile_acl_text(atext, vname)
@@ -172,7 +177,10 @@ def check_case(seed, acc):
     acc.count("patches_checked")
     acc.count("commands_checked", len(paths))
     # execute on the full device
-    dev = D.BlockDevice(D.from_tree(old), U, prefix, exits, strict_undo_redo=False)
+    if flat:
+        dev = D.FlatDevice(D.from_tree(old), U, c01.FLAT_VENDORS[vname], strict_undo_redo=False)
+    else:
+        dev = D.BlockDevice(D.from_tree(old), U, prefix, exits, strict_undo_redo=False)
     snap = {}
     snapshot(dev.root, (), snap)
     try:
@@ -325,7 +333,7 @@ def run_shard(spec, acc):
         if spec["witness"].get("front"):
             check_front(spec["witness"]["seed"], acc, safe=bool(spec["witness"].get("safe")))
         else:
-            check_case(spec["witness"]["seed"], acc)
+            check_case(spec["witness"]["seed"], acc, flat=bool(spec["witness"].get("flat")))
         return
     tier, k, n = spec["tier"], spec["shard"], spec["nshards"]
     total = 2400 if tier == "quick" else 70000
@@ -338,3 +346,5 @@ def run_shard(spec, acc):
             check_front(rng.randrange(1 << 48), acc)
         if j % 6 == 1:
             check_front(rng.randrange(1 << 48), acc, safe=True)
+        if j % 4 == 2:
+            check_case(rng.randrange(1 << 48), acc, flat=True)
